@@ -6,20 +6,7 @@ package spine
 // This file is comment-only and only compiled with -tags verif.
 //
 // Ghost state (specification only).
-//   evn, ev      : number of events published so far and the published payloads, in order
-//@ ghost evn int
-//@ ghost ev map[int]api.EventPayload
-//   dn, dh, dp   : synchronous event-handler invocations so far: handler and payload of each
-//   dsp          : number of go statements executed when the synchronous invocation happened
-//   spawnn, ...  : log of go statements (maintained by the verifier)
-//@ ghost dn int
-//@ ghost dh map[int]api.EventHandlerInterface
-//@ ghost dp map[int]api.EventPayload
-//@ ghost dsp map[int]int
-//@ ghost spawnn int
-//@ ghost spawnfn map[int]int
-// everything a Publish may change (it runs the core handlers synchronously)
-//@ modset PUBLISH = evn, ev, dn, dh, dp, dsp, world, Events.handlers, spawn, outmisc
+// (event ghosts and the PUBLISH modset are declared in api/contracts_verif.go)
 
 // shared macros
 //@ define roleok(f, r) = f.Role() == model.RoleTypeSpecial || f.Role() == r
@@ -578,3 +565,72 @@ package spine
 //@ func[C01] (*FeatureLocal).HandleMessage impl:api.FeatureLocalInterface.HandleMessage
 //@   requires r != nil && r.Feature != nil && r.address != nil && r.responseMsgCallback != nil
 //@   modifies map(gomap[string]map[model.MsgCounterType]*time.Timer), map(gomap[model.MsgCounterType]*time.Timer), map(gomap[model.MsgCounterType][]func(api.ResponseMessage)), timers
+
+// ---------------------------------------------------------------------------------------
+// node management message handling (C01): which handler sends which response
+//@ define NMREQ = r != nil && r.FeatureLocal != nil && r.FeatureLocal.Feature != nil && r.FeatureLocal.address != nil && message != nil && message.FeatureRemote != nil && message.RequestHeader != nil && message.RequestHeader.AddressDestination != nil
+//@ define nmS = message.FeatureRemote.Device().Sender()
+//@ define oneReply(S, K, RH) = respAppended(S, K) && rcls[S][K] == model.CmdClassifierTypeReply && answers(S, K, RH, r.FeatureLocal.address) && sendfails == old(sendfails)
+//@ define noResp = respSame && sendfails == old(sendfails)
+
+//@ func (*NodeManagement).processReadDetailedDiscoveryData
+//@   requires r != nil && r.FeatureLocal != nil && r.FeatureLocal.Feature != nil && r.FeatureLocal.address != nil && requestHeader != nil && requestHeader.AddressDestination != nil
+//@   let K = rn[deviceRemote.Sender()]
+//@   ensures[C01] replied: result == nil ==> oneReply(deviceRemote.Sender(), K, requestHeader)
+//@   ensures[C01] error-silent: result != nil ==> respSame && sendfails >= old(sendfails)
+//@   modifies @RESP, outmisc, sendfails, held
+
+//@ func (*NodeManagement).processReplyDetailedDiscoveryData
+//@   requires r != nil && message != nil && message.DeviceRemote != nil && data != nil && data.DeviceInformation != nil
+//@   ensures[C01] no-response: noResp
+//@   modifies @PUBLISH, world, held
+
+//@ func (*NodeManagement).processNotifyDetailedDiscoveryData trusted
+//@   ensures[C01] no-response: noResp
+//@   modifies @PUBLISH, world, held
+
+//@ func (*NodeManagement).handleMsgDetailedDiscoveryData
+//@   requires NMREQ && message.DeviceRemote != nil && message.DeviceRemote.Sender() == nmS && data != nil && (message.CmdClassifier == model.CmdClassifierTypeReply ==> data.DeviceInformation != nil)
+//@   let K = rn[nmS]
+//@   ensures[C01] read-replies: result == nil && message.CmdClassifier == model.CmdClassifierTypeRead ==> oneReply(nmS, K, message.RequestHeader)
+//@   ensures[C01] others-silent: message.CmdClassifier != model.CmdClassifierTypeRead || result != nil ==> respSame && sendfails >= old(sendfails)
+//@   ensures[C01] only-read-reply-notify: !(message.CmdClassifier == model.CmdClassifierTypeRead || message.CmdClassifier == model.CmdClassifierTypeReply || message.CmdClassifier == model.CmdClassifierTypeNotify) ==> result != nil
+//@   modifies @RESP, @PUBLISH, world, held, sendfails
+
+//@ func (*NodeManagement).processReadSubscriptionData
+//@   requires NMREQ
+//@   let K = rn[nmS]
+//@   ensures[C01,C08] replied: result == nil ==> oneReply(nmS, K, message.RequestHeader)
+//@   ensures[C01] error-silent: result != nil ==> respSame && sendfails >= old(sendfails)
+//@   modifies @RESP, outmisc, sendfails, held
+
+//@ func (*NodeManagement).processReadBindingData
+//@   requires NMREQ
+//@   let K = rn[nmS]
+//@   ensures[C01,C09] replied: result == nil ==> oneReply(nmS, K, message.RequestHeader)
+//@   ensures[C01] error-silent: result != nil ==> respSame && sendfails >= old(sendfails)
+//@   modifies @RESP, outmisc, sendfails, held
+
+//@ func (*NodeManagement).processReadUseCaseData
+//@   requires r != nil && r.FeatureLocal != nil && r.FeatureLocal.Feature != nil && r.FeatureLocal.address != nil && featureRemote != nil && requestHeader != nil && requestHeader.AddressDestination != nil
+//@   let K = rn[featureRemote.Device().Sender()]
+//@   ensures[C01,C20] replied: result == nil ==> oneReply(featureRemote.Device().Sender(), K, requestHeader)
+//@   ensures[C01] error-silent: result != nil ==> respSame && sendfails >= old(sendfails)
+//@   modifies @RESP, outmisc, sendfails
+
+//@ func (*NodeManagement).processReplyUseCaseData
+//@   requires r != nil && message != nil && message.FeatureRemote != nil
+//@   ensures[C01] no-response: noResp && result == nil
+//@   modifies @PUBLISH, world
+
+//@ func (*NodeManagement).processReadDestinationListData
+//@   requires r != nil && r.FeatureLocal != nil && r.FeatureLocal.Feature != nil && r.FeatureLocal.address != nil && featureRemote != nil && requestHeader != nil && requestHeader.AddressDestination != nil
+//@   let K = rn[featureRemote.Device().Sender()]
+//@   ensures[C01] replied: result == nil ==> oneReply(featureRemote.Device().Sender(), K, requestHeader)
+//@   ensures[C01] error-silent: result != nil ==> respSame && sendfails >= old(sendfails)
+//@   modifies @RESP, outmisc, sendfails
+
+//@ func[C01] (*NodeManagement).HandleMessage impl:api.FeatureLocalInterface.HandleMessage
+//@   requires r != nil && r.FeatureLocal != nil && r.FeatureLocal.Feature != nil && r.FeatureLocal.address != nil && r.FeatureLocal.responseMsgCallback != nil
+//@   requires message.DeviceRemote != nil && message.DeviceRemote.Sender() == message.FeatureRemote.Device().Sender()
+//@   modifies map(gomap[model.MsgCounterType][]func(api.ResponseMessage))
